@@ -10,6 +10,7 @@ TRUSTED_COMMON = [
 ]
 
 HOOK_COMMITS = ["7db9398"]
+GEN_FILES = ["MQTables_gen.v", "JpegTables_gen.v", "Facts_gen.v", "HtTables_gen.v", "T1Tables_gen.v"]
 NOT_READY = set()   # Props present but suites not yet registered in cmd/vh
 HOOK_PROPS = {"C04", "C05", "C19"}   # properties with hook-based suites in harness/cmd/vhk
 NOTES = "All checks: bin/check <id>. Level proof = Coq theorems about hand-written Gallina models + regenerated tables/facts, tied to /repo by a correspondence run on every check; an implementation-side oracle searches for failing inputs. See DESIGN.md."
